@@ -17,6 +17,7 @@ import (
 	"sync"
 	"testing"
 
+	"github.com/chrislusf/seaweedfs/weed/util/fla9"
 	"pgregory.net/rapid"
 )
 
@@ -188,8 +189,12 @@ func writeStats() {
 // Main is the TestMain body of every property package.
 func Main(m *testing.M) {
 	flag.Parse()
+	// seaweedfs' glog registers its flags in its own flag set and by default also
+	// writes log files into os.TempDir(); keep everything on stderr (the shard log).
+	_ = fla9.Set("logtostderr", "true")
 	code := m.Run()
 	writeStats()
+	StopAllClusters()
 	CleanupTemp()
 	os.Exit(code)
 }
